@@ -149,6 +149,7 @@ PROPS = {
             {"run": "^TestC15Codecs", "checks": {"quick": 12000, "thorough": 150000}, "shards": {"quick": 1, "thorough": 8}},
             {"run": "^TestC15Crypto", "checks": {"quick": 4000, "thorough": 40000}, "shards": {"quick": 1, "thorough": 8}},
             {"run": "^TestC15JSONEndToEnd", "checks": {"quick": 1500, "thorough": 20000}, "shards": {"quick": 1, "thorough": 1}},
+            {"run": "^TestC15RegistrationFile", "checks": {"quick": 300, "thorough": 6000}, "shards": {"quick": 1, "thorough": 4}},
         ],
         "assumptions": [
             "authorized-server locations are at most 255 bytes on the wire (one length byte) and at most 65535 bytes in the client map",
